@@ -161,6 +161,7 @@ func init() {
 				r := c.R.Fork()
 				o := gen.DefaultProgOpts()
 				o.Floats = false
+				o.NoCycles = true
 				src := gen.Program(r, o)
 				opts := ugo.CompilerOptions{NoOptimize: r.Bool()}
 				bc, err := ugo.Compile([]byte(src), opts)
